@@ -11,6 +11,10 @@ def scalars(rng):
     base = [0, 1, 2, 3, R - 1, R - 2, (R - 1) // 2, (R + 1) // 2, LAMBDA, R - LAMBDA, LAMBDA + 1, LAMBDA - 1,
             2 ** 64 - 1, 2 ** 64, 2 ** 127, 2 ** 128 - 1, 2 ** 128, 2 ** 252, 2 ** 252 - 1]
     k = rng.random()
+    if k < 0.08:
+        # small / sparse INTERNAL (Montgomery) representation: m * 2^-256 mod r
+        rinv = pow(1 << 256, -1, R)
+        return rng.choice([1, 2, 3, 255, 1 << 63, (1 << 64) - 1, 1 << 64, rng.randrange(1, 1 << 64)]) * rinv % R
     if k < 0.35:
         return rng.choice(base)
     if k < 0.5:
@@ -28,7 +32,10 @@ def rep_tok(rng, p, rep=None):
     """token of affine point p in representation rep: 0 Z=1, 1 rescaled, 2 flipped, 3 both"""
     if rep is None:
         rep = rng.randrange(4)
-    l = 1 if rep in (0, 2) else rng.randrange(2, E.P)
+    # rescaling factors: mostly random, sometimes structured (Z = -1, small, congruent to 1 modulo 2^64 / 2^128)
+    l = 1 if rep in (0, 2) else (rng.randrange(2, E.P) if rng.random() < 0.75 else
+                                  rng.choice([E.P - 1, 2, 3, (1 << 64) + 1, (1 << 128) + 1, 1 + (rng.randrange(1, 1 << 60) << 64),
+                                              1 + (rng.randrange(1, 1 << 60) << 192), (1 << 64) - 1]))
     return E.tok(p, l=l, flip=(rep >= 2))
 
 
@@ -122,10 +129,10 @@ def gen_script(rng, nops, emphasis="mixed", with_identity=True, with_zero=False)
     return "gs " + " ".join(toks), nreg
 
 
-SECTIONS = ["B", "EQ", "MAP", "BMAP", "EB", "UB", "US", "UT", "DEC", "OBS"]
+SECTIONS = ["B", "EQ", "MAP", "BMAP", "EB", "UB", "US", "UT", "DEC", "OBS", "B2"]
 # UB / US (uncompressed coordinates) depend on which member (x,y) / (-x,-y) of the Banderwagon class a
 # representation holds, which is not a property-level observable: they are compared only with each other
-CROSS = ("B", "EQ", "MAP", "BMAP", "EB", "UT", "DEC", "OBS")
+CROSS = ("B", "EQ", "MAP", "BMAP", "EB", "UT", "DEC", "OBS", "B2")
 
 
 def canon(line):
